@@ -4,7 +4,11 @@
    submission being a new task thread.  The theorems are EXHAUSTIVE over all schedules for a bounded
    initial thread population (stated in each theorem); they are proved by computing the closed set of
    reachable configurations inside Coq (vm_compute) and a soundness lemma for that computation.
-   The unbounded statement (any number of writers/readers) is not proved in this revision. *)
+   The exploration runs on a positive-keyed map (DrainFast.v; a key collision makes the check fail, so
+   the key need not be injective).  Sanity of the theorem: with the writer's retry after a failed
+   CAS processing-to-idle -> processing-to-required removed from the model, check_fast 2 0 and
+   check_fast 1 1 evaluate to false.  Larger populations (3 writers; 2 writers + a CleanUp caller)
+   exhaust memory in this representation; the unbounded statement is not proved. *)
 From stdpp Require Import gmap.
 From Otter Require Import Drain DrainProofs DrainBounded.
 
@@ -30,6 +34,12 @@ Theorem C14_no_stranding_2_writers : forall sched,
   let s := run_sched (dinit 2 0) sched in terminal s = true -> drained s = true.
 Proof. exact drained_2_writers. Qed.
 Print Assumptions C14_no_stranding_2_writers.
+
+(* one writer racing with an explicit CleanUp caller (Lock, maintenance, Unlock, reschedule) *)
+Theorem C14_no_stranding_1_writer_1_cleanup : forall sched,
+  let s := run_sched (dinit 1 1) sched in terminal s = true -> drained s = true.
+Proof. exact drained_1_writer_1_cleanup. Qed.
+Print Assumptions C14_no_stranding_1_writer_1_cleanup.
 
 Example C14_nonvacuous :
   (* a schedule in which the second writer's push lands while the first writer's task is draining *)
